@@ -6,7 +6,7 @@ LEVEL = "model_checking"
 UNITS = ["src/sp/transport/tcp/tcp.c", "src/sp/transport/ipc/ipc.c", "src/sp/transport/socket/sockfd.c", "src/core/listener.c", "src/sp/protocol/*/ (receive callbacks)", "src/supplemental/websocket/websocket.c (C16)"]
 RULE = "Single steps with the wire bytes fully symbolic: handshake (any 8 bytes), length prefix (any 64-bit value x any RECVMAXSZ), protocol headers by class with symbolic payload, accept result (any nng_err)."
 BOUNDS = "one step per query; protocol headers up to 16 hop words"
-OUTSIDE = "udp transport; long hostile sessions (locality of each step is what is decided); websocket/http are C16"
+OUTSIDE = "udp transport; long hostile sessions (locality of each step is what is decided); http parsers are C16"
 GROUP_WITNESS = False  # re-uses subsets of other properties' sweeps; each query still needs its own witness
 ASSUMPTIONS = ["as in C01/C04/C07/C08/C13"]
 ENV = C01.ENV
@@ -28,6 +28,16 @@ def queries(tier):
             qs.append(q)
     for q in C08.queries(tier):
         if "W03" in q.name or "W04" in q.name or "W00" in q.name or "W02" in q.name:
+            qs.append(q)
+    # websocket: the frame-header rules a hostile peer can break (size limits per frame and per reassembled message, masking,
+    # length forms, opcodes) and the raw request side's header capacity (xreq/xsurvey have no hop limit of their own)
+    from props import C16
+    for q in C16.queries(tier):
+        if q.name.startswith(("ws-header-", "wsframe1-", "wsframe2-")):
+            q.group = "~" + q.group
+            qs.append(q)
+    for q in C13.queries(tier):
+        if q.name.startswith(("xreq-rx", "xsurv-rx")):
             qs.append(q)
     qs.append(Query("listener-accept-any-result", "c14/listener_accept.c", tus=["core/list.c", "core/options.c"], env=["env_alloc.c", "env_misc.c", "env_sync.c", "env_aio.c", "env_libc.c"], defs={}, unwind=10,
                     unwind_rules=KIT_RULES, timeout=300, params={"kernel": "listener_accept_cb", "result": "any nng_err"}))
